@@ -5,6 +5,7 @@ import (
 	"math"
 
 	age "github.com/craterdog/go-collection-framework/v4/agent"
+	col "github.com/craterdog/go-collection-framework/v4/collection"
 	"verifharness/core"
 	"verifharness/lib"
 	"verifharness/model"
@@ -169,4 +170,102 @@ func execTightMaximum(c poolCase, _ core.Source) (res core.Result) {
 		res.Classes = append(res.Classes, "some-pair-beyond-the-limit")
 	}
 	return
+}
+
+// ---------------------------------------------------------------- maps whose keys only look alike
+
+// Two maps may use different key objects that the collator calls equal: lists of equal content, an int8 and
+// an int64 of the same value.  Ranking pairs the keys in sorted order and must then read each map's value
+// with that map's own key.  The check builds two maps over the same key groups, each with its own
+// representative of every group: the ranks of the two orders mirror each other, the maps rank Equal exactly
+// when the values agree group by group, and CompareValues says the same.
+type mapKeysCase struct {
+	Form   string `json:"form"`   // gomap | Map | Catalog
+	Groups []int  `json:"groups"` // key groups used
+	RepA   int    `json:"rep_a"`
+	RepB   int    `json:"rep_b"`
+	ValsA  []int  `json:"vals_a"`
+	ValsB  []int  `json:"vals_b"`
+}
+
+func keyGroup(g, rep int) any {
+	n := lib.Notation()
+	switch g {
+	case 0:
+		return []any{int8(1), int64(1), int(1)}[rep%3]
+	case 1:
+		return "k"
+	case 2: // a list of its own for every call: equal content, another object
+		return col.List[any](n).MakeFromArray([]any{int64(1), "x"})
+	case 3:
+		return []any{uint16(2), uint64(2), uint(2)}[rep%3]
+	default:
+		return col.Set[any](n).MakeFromArray([]any{int64(5)})
+	}
+}
+
+func execMapKeys(prop string) func(mapKeysCase, core.Source) core.Result {
+	return func(c mapKeysCase, _ core.Source) (res core.Result) {
+		n := lib.Notation()
+		build := func(rep int, vals []int) any {
+			switch c.Form {
+			case "gomap":
+				m := map[any]any{}
+				for i, g := range c.Groups {
+					m[keyGroup(g, rep)] = int64(vals[i])
+				}
+				return m
+			case "Map":
+				m := col.Map[any, any](n).Make()
+				for i, g := range c.Groups {
+					m.SetValue(keyGroup(g, rep), int64(vals[i]))
+				}
+				return m
+			}
+			m := col.Catalog[any, any](n).Make()
+			for i, g := range c.Groups {
+				m.SetValue(keyGroup(g, rep), int64(vals[i]))
+			}
+			return m
+		}
+		a, b := build(c.RepA, c.ValsA), build(c.RepB, c.ValsB)
+		same := true
+		for i := range c.Groups {
+			same = same && c.ValsA[i] == c.ValsB[i]
+		}
+		collator := age.Collator[any]().Make()
+		var ab, ba age.Rank
+		var eq bool
+		desc := fmt.Sprintf("two %ss over the key groups %v (representatives %d and %d) with the values %v and %v", c.Form, c.Groups, c.RepA, c.RepB, c.ValsA, c.ValsB)
+		if p, payload := lib.Call(func() {
+			ab, ba, eq = collator.RankValues(a, b), collator.RankValues(b, a), age.Collator[any]().Make().CompareValues(a, b)
+		}); p {
+			res.Violation = core.Violate(prop+"/map-keys/panicked", "%s: ranking or comparing panicked: %s", desc, lib.Short(payload))
+			return
+		}
+		switch {
+		case ba != mirrorRank(ab):
+			res.Violation = core.Violate("C07/map-keys/not-mirrored", "%s: RankValues = %v, reversed = %v", desc, ab, ba)
+		case (ab == age.EqualRank) != same:
+			res.Violation = core.Violate("C07/map-keys/wrong-rank", "%s: RankValues = %v although the values agree = %v", desc, ab, same)
+		case prop == "C08" && eq != same:
+			res.Violation = core.Violate("C08/map-keys/compare-vs-content", "%s: CompareValues = %v although the values agree = %v (RankValues = %v)", desc, eq, same, ab)
+		}
+		res.NonTrivial = len(c.Groups) > 0
+		res.Classes = append(res.Classes, "form-"+c.Form)
+		return
+	}
+}
+
+func genMapKeys(s core.Source) mapKeysCase {
+	c := mapKeysCase{Form: core.Pick(s, []string{"gomap", "Map", "Catalog"}, "form"), RepA: s.Choose(3, "rep-a"), RepB: s.Choose(3, "rep-b")}
+	c.Groups = []int{}
+	for g := 0; g < 5; g++ {
+		if s.Choose(2, "use-group") == 1 {
+			c.Groups = append(c.Groups, g)
+			c.ValsA = append(c.ValsA, s.Choose(2, "va"))
+			c.ValsB = append(c.ValsB, s.Choose(2, "vb"))
+		}
+	}
+	return c
 }
